@@ -711,8 +711,10 @@ carquet_status_t carquet_writer_close(carquet_writer_t* writer) {
     }
 
     /* Flush: buffered data that cannot reach the sink (disk full, I/O error)
-     * is only reported here */
-    if (fflush(writer->file) != 0) {
+     * is only reported here. A write that failed earlier (and was reported by
+     * the call that made it) leaves the stream's error indicator set: the
+     * file is then incomplete whatever the later writes did. */
+    if (fflush(writer->file) != 0 || ferror(writer->file)) {
         status = CARQUET_ERROR_FILE_WRITE;
     }
 
